@@ -80,6 +80,8 @@ type Outcome struct {
 	Err            *ErrM `json:"err,omitempty"`
 	// NilResult: return a nil result without an error
 	NilResult bool `json:"nil_result,omitempty"`
+	// GoErr: return this very error object (C08: the object must not be modified by the library)
+	GoErr error `json:"-"`
 }
 
 type PagingM struct {
@@ -328,6 +330,9 @@ type plainError struct{ msg string }
 
 func (p plainError) Error() string { return p.msg }
 
+// PlainError is an error that is not a Rest.li error response.
+func PlainError(msg string) error { return plainError{msg} }
+
 var errorType = reflect.TypeOf((*error)(nil)).Elem()
 
 // ---------------------------------------------------------------------------------------------
@@ -338,6 +343,10 @@ func resultValues(s *schema.Schema, mi *MethodInfo, o *Outcome, ft reflect.Type,
 	outs := make([]reflect.Value, nout)
 	for i := 0; i < nout; i++ {
 		outs[i] = reflect.Zero(ft.Out(i))
+	}
+	if o.GoErr != nil {
+		outs[nout-1] = reflect.ValueOf(o.GoErr).Convert(errorType)
+		return outs
 	}
 	if o.Err != nil {
 		if o.Err.Plain != "" {
